@@ -77,27 +77,14 @@ Definition ex_env : env :=
   {| e_txn := ex_txn; e_vars := [("k", VInt 3)]; e_ds := [("orders", ex_rows)];
      re_search := fun _ _ => None; re_sub := fun _ _ _ => None; fuzzy_ratio := fun _ _ => None |}.
 
-(* the code hands the *parsed date* on to the next link: date <= "2025-06-01" == "20250601" is True,
-   while "2025-06-01" == "20250601" is False *)
-Theorem c04_chain_is_conjunction_refuted : ~ c04_chain_is_conjunction_statement.
-Proof.
-  intros H.
-  specialize (H ex_env (EName "date") LtE (EConst (CStr "2025-06-01")) Eq (EConst (CStr "20250601")) []).
-  assert (P : forall va sc1, eval ex_env (EName "date") [] = (Val va, sc1) ->
-                exists ob, eval ex_env (EConst (CStr "2025-06-01")) sc1 = (ob, sc1)).
-  { intros va sc1 _. eexists. reflexivity. }
-  specialize (H P). vm_compute in H. discriminate.
-Qed.
-Print Assumptions c04_chain_is_conjunction_refuted.
-
-Theorem c04_chain_is_conjunction_partial :
-  forall E a op1 b op2 c sc,
-    (forall va sc1, eval E a sc = (Val va, sc1) ->
-       exists ob, eval E b sc1 = (ob, sc1) /\ forall vb, ob = Val vb -> date_coerces va vb = false) ->
-    eval E (ECompare a [(op1, b); (op2, c)]) sc =
-    eval E (EBoolOp And [ECompare a [(op1, b)]; ECompare b [(op2, c)]]) sc.
-Proof. exact chain_is_conjunction. Qed.
-Print Assumptions c04_chain_is_conjunction_partial.
+(* proved for the tree.  The side condition is the one genuinely needed: the middle operand is evaluated
+   twice on the right-hand side, so its evaluation must leave the scope as it finds it (it may fail: both
+   sides then fail alike).  a and c are arbitrary (they may bind and fail).
+   History: before the fix "a comparison chain hands the operand as written to the next link" the code
+   carried the date-parsed form of b, and this statement was refuted by  date <= "2025-06-01" == "20250601". *)
+Theorem c04_chain_is_conjunction : c04_chain_is_conjunction_statement.
+Proof. intros E a op1 b op2 c sc H. now apply chain_is_conjunction. Qed.
+Print Assumptions c04_chain_is_conjunction.
 
 (* ---------------- case-insensitive string operators ---------------- *)
 Theorem c04_str_eq_ci :
@@ -192,8 +179,8 @@ Print Assumptions c04_ascii_case_of_text_irrelevant.
 Theorem c04_date_vs_iso_string :
   forall op n s n',
     parse_iso s = IsoOk n' ->
-    compare_link op (VDate n) (VStr s) = (cmp_apply op (VDate n) (VDate n'), VDate n') /\
-    compare_link op (VStr s) (VDate n) = (cmp_apply op (VDate n') (VDate n), VDate n) /\
+    compare_link op (VDate n) (VStr s) = cmp_apply op (VDate n) (VDate n') /\
+    compare_link op (VStr s) (VDate n) = cmp_apply op (VDate n') (VDate n) /\
     (List.In op [Lt; LtE; Gt; GtE] -> cmp_apply op (VDate n) (VDate n') = Val (VBool (order_test op (n ?= n')%Z))) /\
     cmp_apply Eq (VDate n) (VDate n') = Val (VBool (n =? n')%Z) /\
     cmp_apply NotEq (VDate n) (VDate n') = Val (VBool (negb (n =? n')%Z)).
@@ -297,17 +284,13 @@ Theorem c04_trim_strip_prefix_uppercase_lowercase_spec :
 Proof. exact transform_specs. Qed.
 Print Assumptions c04_trim_strip_prefix_uppercase_lowercase_spec.
 
-(* strip_suffix(text, suffix) "removes the suffix if present": false for the empty suffix *)
+(* strip_suffix(text, suffix) removes the suffix if present, whatever the suffix (the empty one included).
+   The guard says the suffix is not longer than the text, which holds whenever the suffix test succeeds on
+   well-formed text.  History: refuted by ("STORE", "") before the fix "strip_suffix slices by explicit length". *)
 Definition c04_strip_suffix_statement : Prop := strip_suffix_statement.
-Theorem c04_strip_suffix_refuted : ~ c04_strip_suffix_statement.
-Proof. exact strip_suffix_refuted. Qed.
-Print Assumptions c04_strip_suffix_refuted.
-Theorem c04_strip_suffix_partial :
-  forall t s, (0 < cp_len s <= cp_len t)%nat ->
-    strip_suffix_str t s =
-    if is_suffix (upper s) (upper t) then sconcat (firstn (cp_len t - cp_len s) (cps t)) else t.
-Proof. exact strip_suffix_partial. Qed.
-Print Assumptions c04_strip_suffix_partial.
+Theorem c04_strip_suffix : c04_strip_suffix_statement.
+Proof. exact strip_suffix_holds. Qed.
+Print Assumptions c04_strip_suffix.
 
 (* ---------------- letter case of names ---------------- *)
 (* re-casing every identifier of an expression (variables, attributes, function / method names, loop
@@ -410,13 +393,20 @@ Example c04_example_de_morgan_with_binding :
 Proof. vm_compute. reflexivity. Qed.
 
 Example c04_example_chain :
-  (* 10 < amount <= 12.5 with a pure middle operand: the side condition of the partial theorem holds *)
-  (forall va sc1, eval ex_env (EConst (CInt 10)) [] = (Val va, sc1) ->
-     exists ob, eval ex_env (EName "amount") sc1 = (ob, sc1) /\ forall vb, ob = Val vb -> date_coerces va vb = false) /\
-  fst (eval ex_env (ECompare (EConst (CInt 10)) [(Lt, EName "amount"); (LtE, EConst (CFloat (25 # 2)))]) []) = Val (VBool true).
+  (* 10 < amount <= 12.5: the middle operand does not bind *)
+  (forall va sc1, eval ex_env (EConst (CInt 10)) [] = (Val va, sc1) -> exists ob, eval ex_env (EName "amount") sc1 = (ob, sc1)) /\
+  fst (eval ex_env (ECompare (EConst (CInt 10)) [(Lt, EName "amount"); (LtE, EConst (CFloat (25 # 2)))]) []) = Val (VBool true) /\
+  (* the former counterexample: both sides are False now *)
+  fst (eval ex_env (ECompare (EName "date") [(LtE, strc "2025-06-01"); (Eq, strc "20250601")]) []) = Val (VBool false) /\
+  fst (eval ex_env (EBoolOp And [ECompare (EName "date") [(LtE, strc "2025-06-01")];
+                                 ECompare (strc "2025-06-01") [(Eq, strc "20250601")]]) []) = Val (VBool false) /\
+  (* a binding middle operand is outside the law: (w := w + 1) is evaluated once on the left, twice on the right *)
+  fst (eval ex_env (ECompare (EConst (CInt 0)) [(Lt, ENamedExpr (EName "k") (EBinOp (EName "k") Add (EConst (CInt 1)))); (Lt, EConst (CInt 5))]) [])
+  <> fst (eval ex_env (EBoolOp And [ECompare (EConst (CInt 0)) [(Lt, ENamedExpr (EName "k") (EBinOp (EName "k") Add (EConst (CInt 1))))];
+                                   ECompare (ENamedExpr (EName "k") (EBinOp (EName "k") Add (EConst (CInt 1)))) [(Lt, EConst (CInt 5))]]) []).
 Proof.
-  split; [|vm_compute; reflexivity].
-  intros va sc1 H. inversion H; subst. eexists. split; [reflexivity|]. intros vb Hb. inversion Hb. reflexivity.
+  split; [intros va sc1 H; inversion H; subst; eexists; reflexivity|].
+  vm_compute. repeat split; try reflexivity. discriminate.
 Qed.
 
 Example c04_example_strings_dates :
@@ -439,7 +429,7 @@ Example c04_example_transforms :
   fn_trim ex_env [VStr "  AMAZON  "] = Val (VStr "AMAZON") /\
   fn_strip_prefix [VStr "SQ*COFFEE"; VStr "sq*"] = Val (VStr "COFFEE") /\
   fn_strip_suffix [VStr "STORE DES:123"; VStr " des:123"] = Val (VStr "STORE") /\
-  fn_strip_suffix [VStr "STORE"; VStr ""] = Val (VStr "") /\
+  fn_strip_suffix [VStr "STORE"; VStr ""] = Val (VStr "STORE") /\
   fn_uppercase [VStr "Starbucks"] = Val (VStr "STARBUCKS").
 Proof. vm_compute. repeat split; reflexivity. Qed.
 
